@@ -75,7 +75,7 @@ CLAIMED = {
             TRUSTED, "9/C32"),
     "C33": (SIM + "the real replication Manager, PipelineHandler, DriverFacade, batching factory and registry over a simulated system store and a recording terminal exporter, with concurrent log production, exporter errors (whole batch, per item), storage errors, pipeline stop/start/reset sequences and worker crash + restart; schedules over ListLogs / Accept / StorePipelineState and timer firings on the simulated clock; oracle (every step) = ids increase within a call, no gap below an acknowledged batch, persisted last id covers only acknowledged logs (since the last reset); (bounded liveness once faults stop) every committed log acknowledged within a budget of configured retry periods",
             "Seeded exploration of replication under faults with safety invariants at every step and bounded liveness after faults stop.",
-            TRUSTED + "gRPC transport and the real exporter drivers are not run. Residual nondeterminism: two timers firing at the same simulated instant are ordered by the Go runtime (DESIGN.md 3.4). KNOWN FINDINGS are listed in known_findings.json.", "9/C33"),
+            TRUSTED + "In half of the runs the data part of every replication storage call (StorePipelineState, UpdatePipeline, CreatePipeline, ListEnabledPipelines, the exporter rows...) is the real internal/storage/system DefaultStore, its SQL interpreted by sqlmini over the _system.pipelines / _system.exporters tables declared from the migrations (DESIGN.md 15.9); in the other half it is the contract model. gRPC transport and the real exporter drivers are not run. Residual nondeterminism: two timers firing at the same simulated instant are ordered by the Go runtime (DESIGN.md 3.4). KNOWN FINDINGS are listed in known_findings.json.", "9/C33"),
     "C38": (SIM + "two profiles. (1) transport faults on otherwise valid requests: body cut (unexpected EOF), cleanly truncated, read error, client disconnect, duplicated request, on every write route and on the streaming routes (json-stream and script-stream bulk, log import). (2) type confusion: grammar-aware mutations of valid bodies of every v1/v2 write route (each JSON position replaced by values of other types, boundary strings, legacy monetary objects), odd query parameters and idempotency keys, ledger creation bodies, and read routes with bad cursors, page sizes, dates and query JSON, sent by concurrent clients; oracle = never a 5xx, a recovered panic or a process crash for a client-side fault, a request answered 4xx has no commit attributed to it, streamed bodies apply only complete elements, no lock or session left behind",
             "Seeded exploration through the real router, handlers, controllers and both Numscript runtimes; includes a process-crash oracle (a panic in a goroutine of the service kills the worker process and is reported with the deterministic run that caused it).",
             TRUSTED + "NOT DECIDED: filters and sort columns are validated by SQL-building storage code that is not in the simulation (the stub refuses every shape it does not model with the storage layer's ErrInvalidQuery); volumes, aggregated balances and stats read routes are not modelled. The type-confusion profile is input generation, which needs no scheduler; it runs inside the simulator because the no-effect oracle (commit records attributed to requests) lives there.", "9/C38"),
